@@ -1,7 +1,7 @@
 (* C12/Proofs.v — the weak-reference model (C12/Model.v) refines the finite-map
    specification (C12/Spec.v): for every operation sequence the observations coincide and
    the destructor loop never runs out of fuel. *)
-From Coq Require Import NArith List Bool Lia Permutation.
+From Coq Require Import NArith PeanoNat List Bool Lia Permutation.
 From Morfuse Require Import Base.Arr Base.ListX Base.Ring C12.Model C12.Spec C12.ProofsLib.
 Import ListNotations.
 Local Open Scope N_scope.
@@ -143,17 +143,18 @@ Proof.
     apply (lists_relink (rnx s) (rpv s) (olist s) L); auto.
     + intros i o'' Hne Hi.
       assert (Hir : i <> r) by (intro; subst i; eapply Hr; eauto).
-      assert (Hd : forall j, In j (L o) -> i <> j) by (intros j Hj; eapply disj_ne; eauto).
+      assert (Hd : forall j, In j (L o) -> i <> j)
+        by (intros j Hj; exact (disj_ne L o o'' i j HD Hne Hi Hj)).
       split; rewrite !gso by (try exact Hir; apply Hd; assumption); reflexivity.
     + rewrite Eh. eapply ring_ext; [| |exact R'].
       * intro i. rewrite !get_set.
-        destruct (N.eqb_spec i r) as [->|Hi];
+        destruct (N.eqb_spec i r) as [Ei|Hi];
           destruct (N.eqb_spec i (get (rpv s) h)) as [E|Hi']; try reflexivity.
-        exfalso. apply (Hr o). rewrite E. exact Hp.
+        exfalso. apply (Hr o). rewrite <- Ei, E. exact Hp.
       * intro i. rewrite !get_set.
-        destruct (N.eqb_spec i r) as [->|Hi];
+        destruct (N.eqb_spec i r) as [Ei|Hi];
           destruct (N.eqb_spec i h) as [E|Hi']; try reflexivity.
-        exfalso. apply (Hr o). rewrite E. exact Hh.
+        exfalso. apply (Hr o). rewrite <- Ei, E. exact Hh.
   - rewrite Ho. cbn [app rnx rpv olist].
     apply (lists_relink (rnx s) (rpv s) (olist s) L); auto.
     + intros i o'' Hne Hi.
@@ -162,3 +163,547 @@ Proof.
     + intros o'' Hne. apply gso. exact Hne.
     + rewrite gss. apply ring_single.
 Qed.
+
+(* ---- detaching a reference from its object, attaching it to another ------------------- *)
+Lemma detach_some s L r o :
+  slists s L -> owned (rptr s) L -> get (rptr s) r = Some o ->
+  exists L1, slists (remove_reference s r o) L1 /\ owned_but (rptr s) r L1.
+Proof.
+  intros HL HO Er.
+  assert (Hr : In r (L o)) by (apply HO; exact Er).
+  destruct (remove_reference_lists s L r o HL (owned_disj _ _ HO) Hr) as [l' [HL' El']].
+  exists (upd L o l'). split; [exact HL'|].
+  intros x o'. unfold upd. destruct (N.eqb_spec o' o) as [->|Hne].
+  - rewrite El', (HO x o). tauto.
+  - rewrite (HO x o'). split; [|tauto]. intro H. split; [exact H|].
+    intro; subst x. congruence.
+Qed.
+
+Lemma detach_none s L r :
+  owned (rptr s) L -> get (rptr s) r = None -> owned_but (rptr s) r L.
+Proof.
+  intros HO Er x o. rewrite (HO x o). split; [|tauto].
+  intro H. split; [exact H|]. intro; subst x. congruence.
+Qed.
+
+Definition attach (s1 : st) (r : N) (v : option N) : st :=
+  match v with
+  | Some o => add_reference (set_ptr s1 r v) r o
+  | None => set_ptr s1 r v
+  end.
+
+Lemma attach_ok s1 L1 r v :
+  slists s1 L1 -> owned_but (rptr s1) r L1 ->
+  exists L3, slists (attach s1 r v) L3 /\ owned (rptr (attach s1 r v)) L3 /\
+             rptr (attach s1 r v) = set (rptr s1) r v /\ same_slots s1 (attach s1 r v).
+Proof.
+  intros HL HO. unfold attach. destruct v as [o|].
+  - assert (Hr : forall o', ~ In r (L1 o')) by (intros o' H; apply HO in H; tauto).
+    destruct (add_reference_frame (set_ptr s1 r (Some o)) r o) as [Ep Hs].
+    exists (upd L1 o (L1 o ++ [r])). split; [|split; [|split]].
+    + apply add_reference_lists; [exact HL | eapply owned_but_disj; eauto | exact Hr].
+    + rewrite Ep. cbn [rptr set_ptr]. intros x o'. rewrite get_set. unfold upd.
+      destruct (N.eqb_spec o' o) as [->|Hne]; destruct (N.eqb_spec x r) as [->|Hx].
+      * rewrite in_app_iff. cbn. split; auto.
+      * rewrite in_app_iff, (HO x o). cbn. split.
+        -- intros [[H _]|[E|[]]]; [exact H|congruence].
+        -- intro H. left. tauto.
+      * split; [intro H; apply Hr in H; tauto | intro E; congruence].
+      * rewrite (HO x o'). tauto.
+    + rewrite Ep. reflexivity.
+    + exact Hs.
+  - exists L1. split; [exact HL|]. split; [|split; [reflexivity | repeat split]].
+    cbn [rptr set_ptr]. intros x o'. rewrite get_set, (HO x o').
+    destruct (N.eqb_spec x r) as [->|Hx]; split; try tauto.
+    + discriminate.
+Qed.
+
+(* ---- Clear ------------------------------------------------------------------------------ *)
+Lemma clear_ok s L r :
+  slists s L -> owned (rptr s) L ->
+  exists L', slists (clear s r) L' /\ owned (rptr (clear s r)) L' /\
+             (forall x, get (rptr (clear s r)) x =
+                        if N.eqb x r then None else get (rptr s) x) /\
+             same_slots s (clear s r).
+Proof.
+  intros HL HO. unfold clear. destruct (get (rptr s) r) as [o|] eqn:Er.
+  - destruct (detach_some s L r o HL HO Er) as [L1 [HL1 HO1]].
+    destruct (remove_reference_frame s r o) as [Ep (Eo & Ers & Eno & Enr)].
+    rewrite <- Ep in HO1.
+    destruct (attach_ok _ L1 r None HL1 HO1) as [L3 (HL3 & HO3 & Ep3 & (Eo3 & Ers3 & Eno3 & Enr3))].
+    unfold attach in *.
+    exists L3. split; [exact HL3|]. split; [exact HO3|]. split.
+    + intro x. rewrite Ep3, Ep. apply get_set.
+    + repeat split; congruence.
+  - exists L. split; [exact HL|]. split; [exact HO|]. split; [|apply same_slots_refl].
+    intro x. destruct (N.eqb_spec x r) as [->|]; [exact Er|reflexivity].
+Qed.
+
+(* ---- InitSafePtr -------------------------------------------------------------------------- *)
+Lemma init_safe_ptr_ok s L r v :
+  slists s L -> owned (rptr s) L ->
+  exists L', slists (init_safe_ptr s r v) L' /\ owned (rptr (init_safe_ptr s r v)) L' /\
+             (forall x, get (rptr (init_safe_ptr s r v)) x =
+                        if N.eqb x r then v else get (rptr s) x) /\
+             same_slots s (init_safe_ptr s r v).
+Proof.
+  intros HL HO. unfold init_safe_ptr.
+  destruct (opt_eqb_spec (get (rptr s) r) v) as [E|E].
+  - exists L. split; [exact HL|]. split; [exact HO|]. split; [|apply same_slots_refl].
+    intro x. destruct (N.eqb_spec x r) as [->|]; [exact E|reflexivity].
+  - cbv zeta.
+    change (match v with
+            | Some o => add_reference (set_ptr ?s1 r v) r o
+            | None => set_ptr ?s1 r v
+            end) with (attach s1 r v).
+    destruct (get (rptr s) r) as [o|] eqn:Er.
+    + destruct (detach_some s L r o HL HO Er) as [L1 [HL1 HO1]].
+      destruct (remove_reference_frame s r o) as [Ep (Eo & Ers & Eno & Enr)].
+      rewrite <- Ep in HO1.
+      destruct (attach_ok _ L1 r v HL1 HO1) as [L3 (HL3 & HO3 & Ep3 & (Eo3 & Ers3 & Eno3 & Enr3))].
+      exists L3. split; [exact HL3|]. split; [exact HO3|]. split.
+      * intro x. rewrite Ep3, Ep. apply get_set.
+      * repeat split; congruence.
+    + pose proof (detach_none s L r HO Er) as HO1.
+      destruct (attach_ok s L r v HL HO1) as [L3 (HL3 & HO3 & Ep3 & Hs3)].
+      exists L3. split; [exact HL3|]. split; [exact HO3|]. split; [|exact Hs3].
+      intro x. rewrite Ep3. apply get_set.
+Qed.
+
+(* ---- the destructor loop ------------------------------------------------------------------ *)
+Lemma destroy_loop_ok o : forall fuel s L,
+  slists s L -> owned (rptr s) L -> (length (L o) <= fuel)%nat ->
+  exists s' L', destroy_loop fuel s o = Some s' /\
+    slists s' L' /\ owned (rptr s') L' /\
+    (forall x, get (rptr s') x =
+               if opt_eqb (get (rptr s) x) (Some o) then None else get (rptr s) x) /\
+    same_slots s s'.
+Proof.
+  induction fuel as [|f IH]; intros s L HL HO Hlen.
+  - pose proof (HL o) as Ho. cbn [destroy_loop].
+    destruct (get (olist s) o) as [h|] eqn:Eh.
+    + exfalso. destruct Ho as (_ & [t Et] & _). rewrite Et in Hlen. cbn in Hlen. lia.
+    + exists s, L. split; [reflexivity|]. split; [exact HL|]. split; [exact HO|].
+      split; [|apply same_slots_refl].
+      intro x. destruct (opt_eqb_spec (get (rptr s) x) (Some o)) as [E|E]; [|reflexivity].
+      apply HO in E. rewrite Ho in E. destruct E.
+  - pose proof (HL o) as Ho. cbn [destroy_loop].
+    destruct (get (olist s) o) as [h|] eqn:Eh.
+    + assert (Hh : In h (L o)) by (eapply ring_in_head; eauto).
+      assert (Eph : get (rptr s) h = Some o) by (apply HO; exact Hh).
+      destruct (clear_ok s L h HL HO) as [L1 (HL1 & HO1 & Ep1 & (Eo1 & Ers1 & Eno1 & Enr1))].
+      assert (Hlen1 : (length (L1 o) <= f)%nat).
+      { assert (Hlt : (length (L1 o) < length (L o))%nat).
+        { apply (nodup_strict_sub_length _ _ h); [eapply lists_nodup; eauto | exact Hh|].
+          intros x Hx. apply HO1 in Hx. rewrite Ep1 in Hx. revert Hx.
+          destruct (N.eqb_spec x h) as [Exh|Hne]; intro Hx; [discriminate|].
+          split; [apply HO; exact Hx | exact Hne]. }
+        lia. }
+      destruct (IH (clear s h) L1 HL1 HO1 Hlen1)
+        as [s' [L' (Ed & HL' & HO' & Ep' & (Eo' & Ers' & Eno' & Enr'))]].
+      exists s', L'. split; [exact Ed|]. split; [exact HL'|]. split; [exact HO'|]. split.
+      * intro x. rewrite Ep', Ep1.
+        destruct (N.eqb_spec x h) as [->|Hne]; [|reflexivity].
+        rewrite Eph. cbn. now rewrite N.eqb_refl.
+      * repeat split; congruence.
+    + exists s, L. split; [reflexivity|]. split; [exact HL|]. split; [exact HO|].
+      split; [|apply same_slots_refl].
+      intro x. destruct (opt_eqb_spec (get (rptr s) x) (Some o)) as [E|E]; [|reflexivity].
+      apply HO in E. rewrite Ho in E. destruct E.
+Qed.
+
+(* ---- the simulation relation ---------------------------------------------------------------- *)
+Record inv (s : st) (a : abs) : Prop := {
+  iv_core : exists L, slists s L /\ owned (rptr s) L;
+  iv_rlive : forall r o, get (rptr s) r = Some o -> exists rs, get (rslot s) rs = Some r;
+  iv_olive : forall r o, get (rptr s) r = Some o -> exists os, get (oslot s) os = Some o;
+  iv_olt : forall os o, get (oslot s) os = Some o -> o < next_obj s;
+  iv_rlt : forall rs r, get (rslot s) rs = Some r -> r < next_ref s;
+  iv_rinj : forall rs rs' r,
+      get (rslot s) rs = Some r -> get (rslot s) rs' = Some r -> rs = rs';
+  iv_objs : forall os, alookup os (aobjs a) = get (oslot s) os;
+  iv_refs : forall rs, alookup rs (arefs a) =
+                       option_map (fun r => get (rptr s) r) (get (rslot s) rs);
+  iv_next : anext a = next_obj s;
+  iv_nd : NoDup (map fst (arefs a)) }.
+
+Lemma inv_init : inv init abs_init.
+Proof.
+  constructor; cbn [init abs_init rnx rpv rptr olist oslot rslot next_obj next_ref
+                    aobjs arefs anext alookup map].
+  - exists (fun _ => []). split.
+    + intro o. now rewrite get_empty.
+    + intros x o. rewrite get_empty. cbn. split; [tauto|discriminate].
+  - intros r o. rewrite get_empty. discriminate.
+  - intros r o. rewrite get_empty. discriminate.
+  - intros os o. rewrite get_empty. discriminate.
+  - intros rs r. rewrite get_empty. discriminate.
+  - intros rs rs' r. rewrite get_empty. discriminate.
+  - intro os. now rewrite get_empty.
+  - intro rs. now rewrite get_empty.
+  - reflexivity.
+  - constructor.
+Qed.
+
+Lemma asrc_ok s a f : inv s a -> asrc a f = src_ptr s f.
+Proof.
+  intros [IC IRL IOL IOLT IRLT IRI IOB IRF INX IND]. destruct f as [|os|rs]; cbn [asrc src_ptr].
+  - reflexivity.
+  - apply IOB.
+  - rewrite IRF. destruct (get (rslot s) rs); reflexivity.
+Qed.
+
+Lemma src_ptr_live s a f o :
+  inv s a -> src_ptr s f = Some o -> exists os, get (oslot s) os = Some o.
+Proof.
+  intros [IC IRL IOL IOLT IRLT IRI IOB IRF INX IND]. destruct f as [|os|rs]; cbn [src_ptr].
+  - discriminate.
+  - eauto.
+  - destruct (get (rslot s) rs) as [r|]; [|discriminate]. apply IOL.
+Qed.
+
+(* assignment / clear: the reference in slot [rs] is re-targeted to [v] *)
+Lemma inv_retarget s a s' rs r v :
+  inv s a -> get (rslot s) rs = Some r ->
+  (exists L', slists s' L' /\ owned (rptr s') L') ->
+  (forall x, get (rptr s') x = if N.eqb x r then v else get (rptr s) x) ->
+  same_slots s s' ->
+  (forall o, v = Some o -> exists os, get (oslot s) os = Some o) ->
+  inv s' (mkAbs (aobjs a) (aset rs v (arefs a)) (anext a)).
+Proof.
+  intros [IC IRL IOL IOLT IRLT IRI IOB IRF INX IND] Hrs HC Hp (Eo & Er & Eno & Enr) Hv.
+  constructor; cbn [aobjs arefs anext]; rewrite ?Eo, ?Er, ?Eno, ?Enr.
+  - exact HC.
+  - intros x o Hx. rewrite Hp in Hx. revert Hx.
+    destruct (N.eqb_spec x r) as [E|Hne]; intro Hx; [subst x; eauto | eapply IRL; eauto].
+  - intros x o Hx. rewrite Hp in Hx. revert Hx.
+    destruct (N.eqb_spec x r) as [E|Hne]; intro Hx; [apply Hv; exact Hx | eapply IOL; eauto].
+  - exact IOLT.
+  - exact IRLT.
+  - exact IRI.
+  - exact IOB.
+  - intro rs'. rewrite alookup_aset. destruct (N.eqb_spec rs' rs) as [E|Hne].
+    + subst rs'. rewrite Hrs. cbn [option_map]. rewrite Hp, N.eqb_refl. reflexivity.
+    + rewrite IRF. destruct (get (rslot s) rs') as [r'|] eqn:E; cbn [option_map]; [|reflexivity].
+      rewrite Hp. destruct (N.eqb_spec r' r) as [E'|]; [|reflexivity].
+      exfalso. apply Hne. subst r'. eapply IRI; eauto.
+  - exact INX.
+  - apply nodup_keys_aset. exact IND.
+Qed.
+
+Lemma inv_new_obj s a os :
+  inv s a -> get (oslot s) os = None ->
+  inv (mkSt (rnx s) (rpv s) (rptr s) (set (olist s) (next_obj s) None)
+            (set (oslot s) os (Some (next_obj s))) (rslot s)
+            (next_obj s + 1) (next_ref s))
+      (mkAbs ((os, anext a) :: aobjs a) (arefs a) (anext a + 1)).
+Proof.
+  intros [IC IRL IOL IOLT IRLT IRI IOB IRF INX IND] Hos.
+  constructor; cbn [rnx rpv rptr olist oslot rslot next_obj next_ref aobjs arefs anext].
+  - destruct IC as [L [HL HO]]. exists L. split; [|exact HO].
+    intro o. rewrite get_set. destruct (N.eqb_spec o (next_obj s)) as [E|Hne]; [|apply HL].
+    subst o. destruct (L (next_obj s)) as [|x t] eqn:El; [reflexivity|]. exfalso.
+    assert (Hx : In x (L (next_obj s))) by (rewrite El; now left).
+    apply HO in Hx. destruct (IOL _ _ Hx) as [os' Hos']. apply IOLT in Hos'. lia.
+  - exact IRL.
+  - intros r o Hr. destruct (IOL _ _ Hr) as [os' Hos']. exists os'.
+    rewrite gso; [exact Hos'|]. intro; subst os'. congruence.
+  - intros os' o. rewrite get_set. destruct (N.eqb_spec os' os) as [E|Hne]; intro H.
+    + injection H as <-. lia.
+    + apply IOLT in H. lia.
+  - exact IRLT.
+  - exact IRI.
+  - intro os'. cbn [alookup]. rewrite get_set.
+    destruct (N.eqb os' os); [now rewrite INX | apply IOB].
+  - exact IRF.
+  - now rewrite INX.
+  - exact IND.
+Qed.
+
+Lemma inv_del_obj s a s' os o :
+  inv s a -> get (oslot s) os = Some o ->
+  (exists L', slists s' L' /\ owned (rptr s') L') ->
+  (forall x, get (rptr s') x =
+             if opt_eqb (get (rptr s) x) (Some o) then None else get (rptr s) x) ->
+  same_slots s s' ->
+  inv (mkSt (rnx s') (rpv s') (rptr s') (olist s') (set (oslot s') os None)
+            (rslot s') (next_obj s') (next_ref s'))
+      (mkAbs (aremove os (aobjs a))
+             (map (fun p => (fst p, if opt_eqb (snd p) (Some o) then None else snd p))
+                  (arefs a))
+             (anext a)).
+Proof.
+  intros [IC IRL IOL IOLT IRLT IRI IOB IRF INX IND] Hos HC Hp (Eo & Er & Eno & Enr).
+  set (g := fun t : option N => if opt_eqb t (Some o) then None else t).
+  change (fun p : N * option N => (fst p, if opt_eqb (snd p) (Some o) then None else snd p))
+    with (fun p : N * option N => (fst p, g (snd p))).
+  constructor; cbn [rnx rpv rptr olist oslot rslot next_obj next_ref aobjs arefs anext];
+    rewrite ?Eo, ?Er, ?Eno, ?Enr.
+  - exact HC.
+  - intros x o' Hx. rewrite Hp in Hx. revert Hx.
+    destruct (opt_eqb (get (rptr s) x) (Some o)); intro Hx; [discriminate | eapply IRL; eauto].
+  - intros x o' Hx. rewrite Hp in Hx. revert Hx.
+    destruct (opt_eqb_spec (get (rptr s) x) (Some o)) as [E|E]; intro Hx; [discriminate|].
+    destruct (IOL _ _ Hx) as [os' Hos']. exists os'.
+    rewrite gso; [exact Hos'|]. intro; subst os'. congruence.
+  - intros os' o'. rewrite get_set. destruct (N.eqb os' os); [discriminate | apply IOLT].
+  - exact IRLT.
+  - exact IRI.
+  - intro os'. rewrite alookup_aremove, get_set.
+    destruct (N.eqb os' os); [reflexivity | apply IOB].
+  - intro rs. rewrite (alookup_map_snd g), IRF.
+    destruct (get (rslot s) rs) as [r|]; cbn [option_map]; [|reflexivity].
+    rewrite Hp. reflexivity.
+  - exact INX.
+  - rewrite (map_fst_map_snd g). exact IND.
+Qed.
+
+Lemma inv_new_ref s a s' rs v :
+  inv s a -> get (rslot s) rs = None ->
+  (exists L', slists s' L' /\ owned (rptr s') L') ->
+  (forall x, get (rptr s') x = if N.eqb x (next_ref s) then v else get (rptr s) x) ->
+  oslot s' = oslot s -> rslot s' = set (rslot s) rs (Some (next_ref s)) ->
+  next_obj s' = next_obj s -> next_ref s' = next_ref s + 1 ->
+  (forall o, v = Some o -> exists os, get (oslot s) os = Some o) ->
+  inv s' (mkAbs (aobjs a) ((rs, v) :: arefs a) (anext a)).
+Proof.
+  intros [IC IRL IOL IOLT IRLT IRI IOB IRF INX IND] Hrs HC Hp Eo Er Eno Enr Hv.
+  constructor; cbn [aobjs arefs anext]; rewrite ?Eo, ?Er, ?Eno, ?Enr.
+  - exact HC.
+  - intros x o Hx. rewrite Hp in Hx. revert Hx.
+    destruct (N.eqb_spec x (next_ref s)) as [E|Hne]; intro Hx.
+    + subst x. exists rs. apply gss.
+    + destruct (IRL _ _ Hx) as [rs' Hrs']. exists rs'.
+      rewrite gso; [exact Hrs'|]. intro; subst rs'. congruence.
+  - intros x o Hx. rewrite Hp in Hx. revert Hx.
+    destruct (N.eqb_spec x (next_ref s)) as [E|Hne]; intro Hx;
+      [apply Hv; exact Hx | eapply IOL; eauto].
+  - exact IOLT.
+  - intros rs' r. rewrite get_set. destruct (N.eqb rs' rs); intro H.
+    + injection H as <-. lia.
+    + apply IRLT in H. lia.
+  - intros rs1 rs2 r. rewrite !get_set.
+    destruct (N.eqb_spec rs1 rs) as [E1|N1]; destruct (N.eqb_spec rs2 rs) as [E2|N2];
+      intros H1 H2.
+    + congruence.
+    + injection H1 as <-. apply IRLT in H2. lia.
+    + injection H2 as <-. apply IRLT in H1. lia.
+    + eapply IRI; eauto.
+  - exact IOB.
+  - intro rs'. cbn [alookup]. rewrite get_set.
+    destruct (N.eqb_spec rs' rs) as [E|Hne]; cbn [option_map].
+    + rewrite Hp, N.eqb_refl. reflexivity.
+    + rewrite IRF. destruct (get (rslot s) rs') as [r'|] eqn:E; cbn [option_map]; [|reflexivity].
+      rewrite Hp. apply IRLT in E.
+      destruct (N.eqb_spec r' (next_ref s)); [lia|reflexivity].
+  - exact INX.
+  - cbn [map fst]. constructor; [|exact IND].
+    apply alookup_none_iff. rewrite IRF, Hrs. reflexivity.
+Qed.
+
+Lemma inv_del_ref_absent s a rs :
+  inv s a -> get (rslot s) rs = None ->
+  inv s (mkAbs (aobjs a) (aremove rs (arefs a)) (anext a)).
+Proof.
+  intros [IC IRL IOL IOLT IRLT IRI IOB IRF INX IND] Hrs.
+  constructor; cbn [aobjs arefs anext]; auto.
+  - intro rs'. rewrite alookup_aremove. destruct (N.eqb_spec rs' rs) as [E|Hne]; [|apply IRF].
+    subst rs'. now rewrite Hrs.
+  - apply nodup_keys_aremove. exact IND.
+Qed.
+
+Lemma inv_del_ref s a s' rs r :
+  inv s a -> get (rslot s) rs = Some r ->
+  (exists L', slists s' L' /\ owned (rptr s') L') ->
+  (forall x, get (rptr s') x = if N.eqb x r then None else get (rptr s) x) ->
+  same_slots s s' ->
+  inv (mkSt (rnx s') (rpv s') (rptr s') (olist s') (oslot s')
+            (set (rslot s') rs None) (next_obj s') (next_ref s'))
+      (mkAbs (aobjs a) (aremove rs (arefs a)) (anext a)).
+Proof.
+  intros [IC IRL IOL IOLT IRLT IRI IOB IRF INX IND] Hrs HC Hp (Eo & Er & Eno & Enr).
+  constructor; cbn [rnx rpv rptr olist oslot rslot next_obj next_ref aobjs arefs anext];
+    rewrite ?Eo, ?Er, ?Eno, ?Enr.
+  - exact HC.
+  - intros x o Hx. rewrite Hp in Hx. revert Hx.
+    destruct (N.eqb_spec x r) as [E|Hne]; intro Hx; [discriminate|].
+    destruct (IRL _ _ Hx) as [rs' Hrs']. exists rs'.
+    rewrite gso; [exact Hrs'|]. intro; subst rs'. congruence.
+  - intros x o Hx. rewrite Hp in Hx. revert Hx.
+    destruct (N.eqb x r); intro Hx; [discriminate | eapply IOL; eauto].
+  - exact IOLT.
+  - intros rs' r'. rewrite get_set. destruct (N.eqb rs' rs); [discriminate | apply IRLT].
+  - intros rs1 rs2 r'. rewrite !get_set.
+    destruct (N.eqb rs1 rs); [discriminate|]. destruct (N.eqb rs2 rs); [discriminate|].
+    apply IRI.
+  - exact IOB.
+  - intro rs'. rewrite alookup_aremove, get_set.
+    destruct (N.eqb_spec rs' rs) as [E|Hne]; [reflexivity|].
+    rewrite IRF. destruct (get (rslot s) rs') as [r'|] eqn:E; cbn [option_map]; [|reflexivity].
+    rewrite Hp. destruct (N.eqb_spec r' r) as [E'|]; [|reflexivity].
+    exfalso. apply Hne. subst r'. eapply IRI; eauto.
+  - exact INX.
+  - apply nodup_keys_aremove. exact IND.
+Qed.
+
+(* ---- every step preserves the simulation, and the destructor loop has enough fuel ---------- *)
+Lemma step_ok s a (o : op) :
+  inv s a -> exists s', step s o = Some s' /\ inv s' (spec_step a o).
+Proof.
+  intro I. pose proof I as [IC IRL IOL IOLT IRLT IRI IOB IRF INX IND].
+  destruct o as [os|os|rs f|rs f|rs|rs]; cbn [step spec_step].
+  - (* ONewObj *)
+    rewrite IOB. destruct (get (oslot s) os) as [o|] eqn:Eos.
+    + exists s. split; [reflexivity | exact I].
+    + eexists. split; [reflexivity|]. apply inv_new_obj; assumption.
+  - (* ODelObj *)
+    rewrite IOB. destruct (get (oslot s) os) as [o|] eqn:Eos.
+    + destruct IC as [L [HL HO]].
+      assert (Hlen : (length (L o) <= S (N.to_nat (next_ref s)))%nat).
+      { assert (H : (length (L o) <= N.to_nat (next_ref s))%nat); [|lia].
+        apply nodup_lt_length; [eapply lists_nodup; eauto|].
+        intros x Hx. apply HO in Hx. destruct (IRL _ _ Hx) as [rs Hrs]. eapply IRLT; eauto. }
+      destruct (destroy_loop_ok o _ s L HL HO Hlen) as [s' [L' (Ed & HL' & HO' & Ep' & Hs')]].
+      rewrite Ed. eexists. split; [reflexivity|].
+      apply (inv_del_obj s a s' os o); eauto.
+    + exists s. split; [reflexivity | exact I].
+  - (* ONewRef *)
+    rewrite IRF. destruct (get (rslot s) rs) as [r0|] eqn:Ers; cbn [option_map].
+    + exists s. split; [reflexivity | exact I].
+    + eexists. split; [reflexivity|].
+      rewrite (asrc_ok s a f I).
+      set (r := next_ref s). set (v := src_ptr s f).
+      set (s0 := mkSt (rnx s) (rpv s) (rptr s) (olist s) (oslot s)
+                      (set (rslot s) rs (Some r)) (next_obj s) (r + 1)).
+      change (match v with
+              | Some o => add_reference ?s1 r o
+              | None => ?s1
+              end) with (attach s0 r v).
+      destruct IC as [L [HL HO]].
+      assert (Efresh : get (rptr s) r = None).
+      { destruct (get (rptr s) r) as [o|] eqn:E; [|reflexivity]. exfalso.
+        destruct (IRL _ _ E) as [rs' Hrs']. apply IRLT in Hrs'. unfold r in Hrs'. lia. }
+      pose proof (detach_none s L r HO Efresh) as HO1.
+      destruct (attach_ok s0 L r v HL HO1) as [L3 (HL3 & HO3 & Ep3 & (Eo3 & Ers3 & Eno3 & Enr3))].
+      apply (inv_new_ref s a (attach s0 r v) rs v); eauto.
+      * intro x. rewrite Ep3. apply get_set.
+      * intros o Hv. eapply src_ptr_live; eauto.
+  - (* OAssign *)
+    rewrite IRF. destruct (get (rslot s) rs) as [r|] eqn:Ers; cbn [option_map].
+    + eexists. split; [reflexivity|].
+      rewrite (asrc_ok s a f I).
+      destruct IC as [L [HL HO]].
+      destruct (init_safe_ptr_ok s L r (src_ptr s f) HL HO) as [L' (HL' & HO' & Ep' & Hs')].
+      apply (inv_retarget s a _ rs r); eauto.
+      intros o Hv. eapply src_ptr_live; eauto.
+    + exists s. split; [reflexivity | exact I].
+  - (* OClear *)
+    rewrite IRF. destruct (get (rslot s) rs) as [r|] eqn:Ers; cbn [option_map].
+    + eexists. split; [reflexivity|].
+      destruct IC as [L [HL HO]].
+      destruct (clear_ok s L r HL HO) as [L' (HL' & HO' & Ep' & Hs')].
+      apply (inv_retarget s a _ rs r); eauto.
+      intros o Hv. discriminate.
+    + exists s. split; [reflexivity | exact I].
+  - (* ODelRef *)
+    destruct (get (rslot s) rs) as [r|] eqn:Ers.
+    + eexists. split; [reflexivity|].
+      destruct IC as [L [HL HO]].
+      destruct (clear_ok s L r HL HO) as [L' (HL' & HO' & Ep' & Hs')].
+      apply (inv_del_ref s a (clear s r) rs r); eauto.
+    + exists s. split; [reflexivity|]. apply inv_del_ref_absent; assumption.
+Qed.
+
+(* ---- observations ----------------------------------------------------------------------------- *)
+Lemma find_oslot_ok s a o : inv s a -> forall n, find_oslot s o n = afind_oslot a o n.
+Proof.
+  intros I n. induction n as [|m IH]; cbn [find_oslot afind_oslot]; [reflexivity|].
+  rewrite (iv_objs _ _ I), IH. reflexivity.
+Qed.
+
+Lemma slot_keys s a o : inv s a -> forall rs,
+  In rs (map fst (filter (fun p => opt_eqb (snd p) (Some o)) (arefs a))) <->
+  exists r, get (rslot s) rs = Some r /\ get (rptr s) r = Some o.
+Proof.
+  intros [IC IRL IOL IOLT IRLT IRI IOB IRF INX IND] rs. split.
+  - intro H. apply in_map_iff in H. destruct H as [[k t] [Ek Hin]]. cbn [fst] in Ek. subst k.
+    apply filter_In in Hin. destruct Hin as [Hin Ht]. cbn [snd] in Ht.
+    apply opt_eqb_eq in Ht. subst t.
+    apply in_alookup in Hin; [|exact IND]. rewrite IRF in Hin.
+    destruct (get (rslot s) rs) as [r|]; cbn [option_map] in Hin; [|discriminate].
+    exists r. split; congruence.
+  - intros [r [Hr Hp]]. apply in_map_iff. exists (rs, Some o). split; [reflexivity|].
+    apply filter_In. split; [|cbn [snd opt_eqb]; apply N.eqb_refl].
+    apply alookup_in. rewrite IRF, Hr. cbn [option_map]. now rewrite Hp.
+Qed.
+
+Lemma count_ok s a L o :
+  inv s a -> slists s L -> owned (rptr s) L -> count_to a o = length (L o).
+Proof.
+  intros I HL HO. pose proof (slot_keys s a o I) as HK.
+  pose proof I as [IC IRL IOL IOLT IRLT IRI IOB IRF INX IND].
+  unfold count_to.
+  set (M := filter (fun p => opt_eqb (snd p) (Some o)) (arefs a)) in *.
+  set (f := fun rs => match get (rslot s) rs with Some r => r | None => 0 end).
+  rewrite <- (map_length fst M), <- (map_length f (map fst M)).
+  apply same_members_length.
+  - apply nodup_map_inj_on; [|apply nodup_keys_filter; exact IND].
+    intros x y Hx Hy E. apply HK in Hx. apply HK in Hy.
+    destruct Hx as [r1 [Hx1 Hx2]]. destruct Hy as [r2 [Hy1 Hy2]].
+    unfold f in E. rewrite Hx1, Hy1 in E. subst r2. eapply IRI; eauto.
+  - eapply lists_nodup; eauto.
+  - intro x. rewrite in_map_iff. split.
+    + intros [rs [E Hin]]. apply HK in Hin. destruct Hin as [r [Hr Hp]].
+      unfold f in E. rewrite Hr in E. subst x. apply HO. exact Hp.
+    + intro Hx. apply HO in Hx. destruct (IRL _ _ Hx) as [rs Hrs].
+      exists rs. split; [unfold f; now rewrite Hrs|]. apply HK. eauto.
+Qed.
+
+Lemma is_last_ok s a r o :
+  inv s a -> get (rptr s) r = Some o ->
+  (N.eqb (get (rnx s) r) r && N.eqb (get (rpv s) r) r) = Nat.eqb (count_to a o) 1.
+Proof.
+  intros I Hp. destruct (iv_core _ _ I) as [L [HL HO]].
+  rewrite (count_ok s a L o I HL HO).
+  assert (Hr : In r (L o)) by (apply HO; exact Hp).
+  destruct (lists_head _ _ _ _ _ _ HL Hr) as [h [Eh R]].
+  destruct (N.eqb_spec (get (rnx s) r) r) as [Hn|Hn]; cbn [andb].
+  - assert (El : L o = [r]) by (eapply ring_single_iff; eauto).
+    rewrite El. cbn [length Nat.eqb].
+    pose proof (ring_pv_nx _ _ _ _ _ R Hr) as Hpv. rewrite Hn in Hpv.
+    rewrite Hpv. apply N.eqb_refl.
+  - symmetry. apply Nat.eqb_neq. intro Hlen. apply Hn.
+    eapply ring_single_iff; eauto.
+    destruct (L o) as [|x [|y t]]; cbn in Hlen; try discriminate.
+    destruct Hr as [->|[]]. reflexivity.
+Qed.
+
+Lemma observe_ref_ok no s a rs : inv s a -> observe_ref no s rs = aobserve_ref no a rs.
+Proof.
+  intro I. unfold observe_ref, aobserve_ref. rewrite (iv_refs _ _ I).
+  destruct (get (rslot s) rs) as [r|] eqn:Ers; cbn [option_map]; [|reflexivity].
+  destruct (get (rptr s) r) as [o|] eqn:Ep; [|reflexivity].
+  rewrite (find_oslot_ok s a o I), (is_last_ok s a r o I Ep). reflexivity.
+Qed.
+
+Lemma observe_ok no nr s a : inv s a -> observe no nr s = aobserve no nr a.
+Proof.
+  intro I. unfold observe, aobserve. apply map_ext. intro i. now apply observe_ref_ok.
+Qed.
+
+(* ---- the refinement theorem ----------------------------------------------------------------- *)
+Lemma run_from_refines no nr : forall ops s a,
+  inv s a -> run_from no nr s ops = map Some (spec_from no nr a ops).
+Proof.
+  induction ops as [|o ops IH]; intros s a I; cbn [run_from spec_from map]; [reflexivity|].
+  destruct (step_ok s a o I) as [s' [E I']]. rewrite E. cbv zeta. cbn [map]. f_equal.
+  - f_equal. now apply observe_ok.
+  - now apply IH.
+Qed.
+
+Theorem run_refines_spec : forall (no nr : nat) (ops : list op),
+  run no nr ops = map Some (spec_run no nr ops).
+Proof.
+  intros no nr ops. unfold run, spec_run. apply run_from_refines. exact inv_init.
+Qed.
+
